@@ -126,7 +126,7 @@ func className(addr uint16) string {
 }
 
 func run(c *rig.Ctx) {
-	c.Require("writes_checked", "writes_io", "writes_cart_control", "states", "writes_with_lcd_on", "writes_with_sound_off", "writes_with_visible_effect", "states_with_buttons_held")
+	c.Require("writes_checked", "writes_io", "writes_cart_control", "states", "writes_with_lcd_on", "writes_with_sound_off", "writes_with_visible_effect", "states_with_buttons_held", "writes_with_channels_playing")
 	nstates := c.N(48, 480)
 	c.Part("states", nstates, func(i int64, r *rig.Rng) {
 		carts := []int{0x00, 0x01, 0x03, 0x05, 0x13, 0x10, 0x1b}
@@ -187,6 +187,44 @@ func run(c *rig.Ctx) {
 				addr = 0xff00 + uint16(k%256)
 			case k < 2048+256:
 				addr = 0xfe00 + uint16(k%256)
+			case k < 2048+256+800:
+				// sound registers written while all four channels are playing (set up afresh,
+				// with random parameters, before every such write)
+				mw := m.Mem.Write
+				mw(0xff26, 0x80)
+				mw(0xff10, r.U8())
+				mw(0xff11, r.U8())
+				mw(0xff12, 0xf0|r.U8()&7)
+				mw(0xff13, r.U8())
+				mw(0xff14, 0x80|r.U8()&0x47)
+				mw(0xff16, r.U8())
+				mw(0xff17, 0xf0|r.U8()&7)
+				mw(0xff18, r.U8())
+				mw(0xff19, 0x80|r.U8()&0x47)
+				mw(0xff1a, 0x80)
+				mw(0xff1b, r.U8())
+				mw(0xff1c, r.U8())
+				mw(0xff1d, r.U8())
+				mw(0xff1e, 0x80|r.U8()&0x47)
+				mw(0xff20, r.U8())
+				mw(0xff21, 0xf0|r.U8()&7)
+				mw(0xff22, r.U8())
+				mw(0xff23, 0x80|r.U8()&0x40)
+				if r.Chance(1, 2) {
+					tick(r.Intn(5000))
+					sweep(m, &before)
+				} else {
+					for a := 0xff00; a < 0xff80; a++ {
+						before[a] = lockstep.Peek(m, uint16(a))
+					}
+				}
+				if before[0xff26]&0x0f != 0 {
+					c.Count("writes_with_channels_playing", 1)
+				}
+				addr = 0xff10 + uint16(r.Intn(0x17))
+				if r.Chance(1, 8) {
+					addr = 0xff30 + uint16(r.Intn(0x10))
+				}
 			default:
 				switch r.Intn(8) {
 				case 0, 1:
